@@ -384,6 +384,7 @@ Lemma scope_example :
   let top := Chart "top" "1.0.0" [] None [suba; subb] None [] false in
   let v := [("global", VMap [("g", VNum 7)]); ("suba", VMap [("zz", VNum 1)])] in
   let v' := [("global", VMap [("g", VNum 7)]); ("suba", VMap [("zz", VNum 2); ("global", VMap [("h", VNum 3)])])] in
+  NoDup (map cname (cdeps top)) /\ ~ In global_key (map cname (cdeps top)) /\
   match coalesce false top v, coalesce false top v' with
   | Ok r, Ok r' =>
       lookup_path ["suba"; "global"; "g"] (VMap r) = Some (VNum 7)
@@ -392,4 +393,9 @@ Lemma scope_example :
       /\ lookup_path ["subb"; "global"; "h"] (VMap r') = None
   | _, _ => False
   end.
-Proof. vm_compute. repeat split; reflexivity. Qed.
+Proof.
+  split; [|split].
+  - simpl. repeat constructor; simpl; intuition discriminate.
+  - simpl. intuition discriminate.
+  - vm_compute. repeat split; reflexivity.
+Qed.
